@@ -36,6 +36,9 @@ type config struct {
 	// has to ask)
 	alt                   *config
 	loginCode, unauthCode bool
+	// how ENABLE is answered when the extension is not (or cannot be) enabled:
+	// "* ENABLED" without it, no ENABLED response at all, or another extension
+	enableReply string
 }
 
 func (c config) caps() string {
@@ -80,6 +83,9 @@ type peer struct {
 	refused  int
 	done     chan struct{}
 	afterRef bool
+	idleHook  chan struct{}
+	skipNext  bool
+	sawExists chan struct{}
 }
 
 func (p *peer) errf(f string, a ...any) {
@@ -133,7 +139,13 @@ func (p *peer) loop() {
 			s.Sendf("%s %s literal refused\r\n", cmd.Tag, d)
 			continue
 		}
-		p.check(cmd)
+		p.mu.Lock()
+		skip := p.skipNext
+		p.skipNext = false
+		p.mu.Unlock()
+		if !skip {
+			p.check(cmd)
+		}
 		switch cmd.Name {
 		case "CAPABILITY":
 			s.Sendf("* CAPABILITY %s\r\n%s OK done\r\n", p.cfg.caps(), cmd.Tag)
@@ -142,7 +154,14 @@ func (p *peer) loop() {
 				p.enabled = true
 				s.Sendf("* ENABLED UTF8=ACCEPT\r\n%s OK done\r\n", cmd.Tag)
 			} else {
-				s.Sendf("* ENABLED\r\n%s OK done\r\n", cmd.Tag)
+				switch p.cfg.enableReply {
+				case "bare":
+					s.Sendf("%s OK done\r\n", cmd.Tag)
+				case "other":
+					s.Sendf("* ENABLED X-OTHER\r\n%s OK done\r\n", cmd.Tag)
+				default:
+					s.Sendf("* ENABLED\r\n%s OK done\r\n", cmd.Tag)
+				}
 			}
 		case "LOGIN":
 			p.logins++
@@ -165,6 +184,22 @@ func (p *peer) loop() {
 			}
 		case "IDLE":
 			s.Send("+ idling\r\n")
+			p.mu.Lock()
+			hook := p.idleHook
+			p.mu.Unlock()
+			if hook != nil {
+				// the test has queued another command behind IDLE (it waits for the
+				// encoder): the capabilities change now, before IDLE ends
+				select {
+				case <-hook:
+					p.cfg.rev2, p.cfg.litMinus, p.cfg.litPlus = false, false, false
+					if a := p.cfg.alt; a != nil {
+						p.cfg.rev2, p.cfg.litMinus, p.cfg.litPlus = a.rev2, a.litMinus, a.litPlus
+					}
+					s.Sendf("* CAPABILITY %s\r\n* 77 EXISTS\r\n", p.cfg.caps())
+				case <-time.After(200 * time.Millisecond):
+				}
+			}
 			if l, err := s.ReadRawLine(); err != nil || l != "DONE" {
 				p.errf("expected DONE to end IDLE, got %q (%v)", l, err)
 				return
@@ -229,7 +264,7 @@ func (p *peer) check(cmd *script.Command) {
 
 func genStr(t *rapid.T, label string) string { return gen.Bytes(t, label, true).S }
 
-var calls = []string{"Select", "Create", "Rename", "List", "Status", "Append", "Search", "Fetch", "Store", "Copy", "GetQuota", "GetQuotaRoot", "SetMetadata", "GetMetadata", "Sort", "Thread", "Login2", "Search", "Append", "Idle", "Unauthenticate", "Enable", "Login2"}
+var calls = []string{"Select", "Create", "Rename", "List", "Status", "Append", "Search", "Fetch", "Store", "Copy", "GetQuota", "GetQuotaRoot", "SetMetadata", "GetMetadata", "Sort", "Thread", "Login2", "Search", "Append", "Idle", "Unauthenticate", "Enable", "Login2", "IdleWithQueued"}
 
 // prepare draws the arguments of one client call (in the test goroutine, as
 // rapid requires) and returns the call as a closure; errors returned by the
@@ -339,6 +374,44 @@ func prepare(t *rapid.T, c *imapclient.Client, name string) (desc string, do fun
 			_, err := c.Thread(&imapclient.ThreadOptions{Algorithm: imap.ThreadReferences, SearchCriteria: cr}).Wait()
 			return err
 		}
+	case "IdleWithQueued":
+		// a second goroutine submits a command while IDLE holds the encoder; the
+		// server changes its capabilities before IDLE ends; the queued command
+		// is written afterwards and must be legal for the new capabilities
+		root := genStr(t, "root")
+		return fmt.Sprintf("Idle + queued GetQuota(%q) + capability change", clip(root)), func() error {
+			hook := make(chan struct{}, 1)
+			setIdleHook(c, hook)
+			defer setIdleHook(c, nil)
+			idle, err := c.Idle()
+			if err != nil {
+				return err
+			}
+			res := make(chan error, 1)
+			go func() { _, err := c.GetQuota(root).Wait(); res <- err }()
+			time.Sleep(2 * time.Millisecond)
+			hook <- struct{}{}
+			// wait until the client has seen the new capabilities (only then is it
+			// bound by them); if that cannot be observed the queued command is not judged
+			// (observed through the handler of an EXISTS sent right behind the
+			// CAPABILITY response: responses are processed in order; Caps() itself
+			// may block behind IDLE)
+			select {
+			case <-existsSeen(c):
+			case <-time.After(5 * time.Second):
+				skipNextJudgement(c)
+			}
+			cerr := idle.Close()
+			werr := idle.Wait()
+			qerr := <-res
+			if cerr != nil {
+				return cerr
+			}
+			if werr != nil {
+				return werr
+			}
+			return qerr
+		}
 	case "Idle":
 		return "Idle", func() error {
 			idle, err := c.Idle()
@@ -354,14 +427,66 @@ func prepare(t *rapid.T, c *imapclient.Client, name string) (desc string, do fun
 	return name, func() error { return nil }
 }
 
+var (
+	peersMu sync.Mutex
+	peers   = map[*imapclient.Client]*peer{}
+)
+
+// setIdleHook arms (or disarms) the capability change during the next IDLE of
+// the peer that serves c. Called while the peer is waiting for a command.
+func setIdleHook(c *imapclient.Client, hook chan struct{}) {
+	peersMu.Lock()
+	p := peers[c]
+	peersMu.Unlock()
+	if p != nil {
+		p.mu.Lock()
+		p.idleHook = hook
+		p.mu.Unlock()
+	}
+}
+
+func existsSeen(c *imapclient.Client) chan struct{} {
+	peersMu.Lock()
+	defer peersMu.Unlock()
+	if p := peers[c]; p != nil {
+		return p.sawExists
+	}
+	return nil
+}
+
+func skipNextJudgement(c *imapclient.Client) {
+	peersMu.Lock()
+	p := peers[c]
+	peersMu.Unlock()
+	if p != nil {
+		p.mu.Lock()
+		p.skipNext = true
+		p.mu.Unlock()
+	}
+}
+
 func runCase(t *rapid.T, cfg config) (hist []string, p *peer) {
 	clientEnd, s := script.New()
 	if !cfg.quiet {
 		s.Quiet = 0
 	}
-	p = &peer{cfg: cfg, s: s, done: make(chan struct{})}
+	p = &peer{cfg: cfg, s: s, done: make(chan struct{}), sawExists: make(chan struct{}, 8)}
 	go p.loop()
-	c := imapclient.New(clientEnd, nil)
+	saw := p.sawExists
+	c := imapclient.New(clientEnd, &imapclient.Options{UnilateralDataHandler: &imapclient.UnilateralDataHandler{
+		Mailbox: func(d *imapclient.UnilateralDataMailbox) {
+			if d.NumMessages != nil && *d.NumMessages == 77 {
+				select {
+				case saw <- struct{}{}:
+				default:
+				}
+			}
+		},
+	}})
+	peersMu.Lock()
+	peers[c] = p
+	peersMu.Unlock()
+	defer func() { peersMu.Lock(); delete(peers, c); peersMu.Unlock() }()
 	defer func() {
 		cs.Within(5*time.Second, "Close", func() error { c.Close(); return nil })
 		s.Close()
@@ -411,6 +536,7 @@ func TestPropSyntax(t *testing.T) {
 			utf8Cap: rapid.Bool().Draw(t, "utf8cap"), quiet: rapid.IntRange(0, 3).Draw(t, "quiet") != 0}
 		cfg.enableUTF8 = cfg.utf8Cap && rapid.Bool().Draw(t, "enableUTF8")
 		cfg.loginCode, cfg.unauthCode = rapid.Bool().Draw(t, "loginCode"), rapid.Bool().Draw(t, "unauthCode")
+		cfg.enableReply = rapid.SampledFrom([]string{"empty", "bare", "other"}).Draw(t, "enableReply")
 		if rapid.IntRange(0, 2).Draw(t, "capschange") == 0 {
 			cfg.alt = &config{rev2: rapid.Bool().Draw(t, "rev2'"), litMinus: rapid.Bool().Draw(t, "literal-'"), litPlus: rapid.IntRange(0, 3).Draw(t, "literal+'") == 2,
 				utf8Cap: rapid.Bool().Draw(t, "utf8cap'")}
